@@ -111,6 +111,11 @@ def module_level_binding(modname, name):
         elif isinstance(n, ast.AnnAssign) and isinstance(n.target, ast.Name) and n.value is not None:
             targets, val = [n.target.id], n.value
         if name in targets:
+            if isinstance(val, (ast.Dict, ast.List, ast.Set)) and (getattr(val, "keys", None) or getattr(val, "elts", None)):
+                # a NON-EMPTY literal display is a lookup table (defaults, dispatch): it has the contents the module gives
+                # it (memos and registries start empty).  Refactoring R_C13_1 reads the parser defaults from such tables;
+                # starting them empty made every parsed field "differ" -- a false alarm of the C13 / C16 / C08 checks.
+                return ("other", None)
             if isinstance(val, (ast.Dict, ast.List, ast.Set, ast.ListComp, ast.DictComp, ast.SetComp)):
                 return ("mutable", type(val).__name__)
             if isinstance(val, ast.Call):
